@@ -189,7 +189,9 @@ class ModelProxy:
         return ClassProxy(self._ctx, self._cls)
 
     def _vc_super_of(self, clsproxy):
-        return _Super(self, clsproxy.cls)
+        sp = object.__new__(_Super)
+        sp.__dict__.update(obj=self, after=clsproxy.cls)
+        return sp
 
     def _vc_super(self):
         raise OutOfSubset('zero-argument super() on a model proxy')
@@ -202,8 +204,12 @@ class ModelProxy:
 
 
 class _Super:
-    def __init__(self, obj, after):
-        self.obj, self.after = obj, after
+    """super(Cls, obj): attribute lookup starts after Cls in the MRO read from the tree.  Built with _mk_super (its own
+    __init__ is the ANALYSED code's `super().__init__(...)` call)."""
+
+    def __init__(self, *a, **k):
+        o = self.obj
+        return _lookup(o._ctx, o, o._cls, '__init__', skip_until=self.after)(*a, **k)
 
     def __getattr__(self, name):
         o = self.obj
@@ -307,7 +313,9 @@ def no_isolated_private(th, g):
 
 
 def private_are_sources(th, g):
-    return th.forall_nodes(lambda x, y: z3.Implies(g.edge(y, x), z3.Not(th.private(x))), 2)
+    """private nodes are constants: they have no parents and feed their children through positional params"""
+    return th.forall_nodes(lambda x, y: z3.And(z3.Implies(g.edge(y, x), z3.Not(th.private(x))),
+                                               z3.Implies(z3.And(th.private(x), g.edge(x, y)), th.Param.is_ppos(g.param(x, y)))), 2)
 
 
 def acyclic_by(th, g, rank):
@@ -563,5 +571,557 @@ class _BadParam:
         return '<object>'
 
 
+# ---------------------------------------------------------------------- remove_node (recursive, virtual)
+def rn_facts(th, g0, h0, g1, h1, name, obs_mode, ranks, guard=None):
+    """Spec of remove_node(name) between the states (g0, h0) -> (g1, h1); also the shape of its loop invariant (with `guard`).
+    obs_mode: 'none'   heap untouched (self is a plain GraphicalModel)
+              'others' the observed entries of the removed nodes OTHER than `name` are gone (base-class body run on an ElfiModel:
+                       the recursive call is virtual)
+              'all'    the observed entries of all removed nodes are gone (ElfiModel.remove_node)"""
+    removed = lambda x: z3.And(g0.node(x), z3.Not(g1.node(x)))
+    guard = guard or (lambda q, r: z3.BoolVal(True))
+    out = [('the node is gone', z3.Not(g1.node(name))),
+           ('no node is added', th.forall_nodes(lambda x: z3.Implies(g1.node(x), g0.node(x)))),
+           ('exactly the edges between remaining nodes remain', th.forall_nodes(lambda u, v: g1.edge(u, v) == z3.And(g0.edge(u, v), g1.node(u), g1.node(v)), 2)),
+           ('remaining edges keep their params', th.forall_nodes(lambda u, v: z3.Implies(g1.edge(u, v), g1.param(u, v) == g0.param(u, v)), 2)),
+           ('remaining nodes keep their data dicts', th.forall_nodes(lambda x: z3.Implies(g1.node(x), g1.nattr(x) == g0.nattr(x)))),
+           ('frame: any other removed node is a private positional parent of a removed node, and all its neighbours are removed too',
+            th.forall_nodes(lambda x: z3.Implies(z3.And(removed(x), x != name),
+                                                 z3.And(th.private(x), th.exists_nodes(lambda r: z3.And(removed(r), g0.pos(x, r))),
+                                                        th.forall_nodes(lambda y: z3.Implies(nbr(g0, x, y), z3.Not(g1.node(y)))))))),
+           ('removed nodes take their private constants with them: no private positional parent of a removed node is left isolated',
+            th.forall_nodes(lambda q, r: z3.Implies(z3.And(g1.node(q), th.private(q), removed(r), g0.pos(q, r), guard(q, r)),
+                                                    th.exists_nodes(lambda y: nbr(g1, q, y))), 2))]
+    for rk in ranks:
+        out.append(('ghost: other removed nodes lie strictly below the node in any rank that orders the graph',
+                    z3.Implies(acyclic_by(th, g0, rk), th.forall_nodes(lambda x: z3.Implies(z3.And(removed(x), x != name), rk(x) < rk(name))))))
+    if obs_mode == 'none':
+        out.append(('no dict is written', heap_same_except(th, h0, h1, lambda r, k: z3.BoolVal(False))))
+    else:
+        o = obsref(th, g0, h0)
+        K = th.Key
+        drop = (lambda x: removed(x)) if obs_mode == 'all' else (lambda x: z3.And(removed(x), x != name))
+        out.append(('only observed entries of removed nodes are written',
+                    heap_same_except(th, h0, h1, lambda r, k: z3.And(r == o, K.is_knode(k), drop(K.knode_of(k))))))
+        out.append(('removed nodes take their observed data with them', th.forall_nodes(lambda x: z3.Implies(drop(x), z3.Not(h1.has(o, th.knode(x)))))))
+    return out
+
+
+def obs_rep(th, g, h):
+    """graph['observed'] holds a dict other than the graph dict itself"""
+    O = th.klit('observed')
+    o = obsref(th, g, h)
+    return z3.And(h.has(g.gref, O), th.Val.is_vref(h.val(g.gref, O)), h.alloc(o), o != g.gref)
+
+
+def rn_pre(th, g, h, elfi):
+    f = [('networkx representation invariant', graph_wf(th, g, h)), ("every edge carries a 'param'", edges_have_param(th, g))]
+    if elfi:
+        f.append(('graph[observed] is a dict', obs_rep(th, g, h)))
+    return f
+
+
+def rn_kept(th, g0, h0, g1, h1, elfi, obs_mode):
+    """what remove_node preserves besides its own precondition"""
+    return [(lbl + ' (kept)', f) for lbl, f in rn_pre(th, g1, h1, elfi)] + \
+        [('model representation kept', z3.Implies(elfi_rep(th, g0, h0, elfi), elfi_rep(th, g1, h1, elfi))),
+         ('model_ok kept: positional params pairwise distinct', z3.Implies(params_distinct(th, g0), params_distinct(th, g1)))] + \
+        ([('model_ok kept: observed data only for nodes', z3.Implies(observed_on_nodes(th, g0, h0), observed_on_nodes(th, g1, h1)))] if obs_mode == 'all' else [])
+
+
+def make_stub_remove_node(obs_mode):
+    def stub(m, name):
+        ctx = m._ctx
+        th, vc, G, H = ctx.th, ctx.vc, m.source_net, ctx.H
+        n = name.t
+        g0, h0 = G.snap(), H.snap()
+        for lbl, f in rn_pre(th, g0, h0, obs_mode != 'none'):
+            vc.oblige('call-pre[remove_node: %s]' % lbl, f)
+        if not vc.branch(G.node(n)):
+            raise program_exception(nxspec.NetworkXError('The node is not in the digraph'))
+        G._vc_havoc('remove_node')
+        if obs_mode != 'none':
+            H._vc_havoc('remove_node')
+        g1, h1 = G.snap(), H.snap()
+        for lbl, f in rn_facts(th, g0, h0, g1, h1, n, obs_mode, ctx.ranks) + rn_kept(th, g0, h0, g1, h1, obs_mode != 'none', obs_mode):
+            vc.assume(f)
+        return ctx.record('remove_node', (name,), (g0, h0, g1, h1))
+    return stub
+
+
+class RemoveNode(C14Contract):
+    """GraphicalModel.remove_node with self: GraphicalModel | ElfiModel, and ElfiModel.remove_node"""
+
+    def __init__(self, where, cls):
+        self.where, self.cls = where, cls
+        self.target = (GMF + '::GraphicalModel.remove_node') if where == 'GraphicalModel' else (EMF + '::ElfiModel.remove_node')
+        self.label = 'self:' + cls
+        self.elfi = cls == 'ElfiModel'
+        self.obs_mode = 'none' if cls == 'GraphicalModel' else ('all' if where == 'ElfiModel' else 'others')
+
+    def setup(self, vc):
+        s = self.base_setup(vc)
+        ctx = s.ctx
+        rank = z3.Function('rank', s.th.Node, z3.IntSort())
+        ctx.ranks = [lambda x: rank(x)]
+        ctx.stubs[('GraphicalModel', 'get_parents')] = stub_get_parents
+        # the call `self.remove_node(p)` inside GraphicalModel.remove_node is VIRTUAL: for an ElfiModel it reaches ElfiModel.remove_node
+        # (looked up in the tree); super(ElfiModel, self).remove_node reaches the base body run on an ElfiModel
+        ctx.stubs[('GraphicalModel', 'remove_node')] = make_stub_remove_node('none' if self.cls == 'GraphicalModel' else 'others')
+        ctx.stubs[('ElfiModel', 'remove_node')] = make_stub_remove_node('all')
+        s.name = self.name(s, 'name')
+        return s, (s.m, s.name), {}
+
+    def requires(self, s):
+        return rn_pre(s.th, s.g0, s.h0, self.elfi)
+
+    def raises(self, s):
+        return {'NetworkXError': z3.Not(s.g0.node(s.name.t))}
+
+    def iff_raises(self, s):
+        return [('normal return only for an existing node', s.g0.node(s.name.t))]
+
+    def _inv(self, s, l):
+        calls = s.ctx.calls.get('get_parents', [])
+        if len(calls) != 1:
+            raise OutOfSubset('remove_node: expected one get_parents call before the loop, saw %d' % len(calls))
+        R = calls[0][1]
+        i, idx, name = l.it.index, R.ghost, s.name.t
+        return rn_facts(s.th, s.g0, s.h0, s.G.snap(), s.H.snap(), name, self.obs_mode, s.ctx.ranks,
+                        guard=lambda q, r: z3.Implies(r == name, idx(q) < i))
+
+    @property
+    def loops(self):
+        if self.where != 'GraphicalModel':
+            return {}
+        return {0: Loop(inv=self._inv, modifies=lambda s, l: [s.G] + ([s.H] if self.elfi else []))}
+
+    def ensures(self, s, result):
+        g1, h1 = s.G.snap(), s.H.snap()
+        return rn_facts(s.th, s.g0, s.h0, g1, h1, s.name.t, self.obs_mode, s.ctx.ranks) + rn_kept(s.th, s.g0, s.h0, g1, h1, self.elfi, self.obs_mode)
+
+
+# ---------------------------------------------------------------------- update_node
+def un_pre(th, g, h, node, upd, elfi, rank, N, D):
+    """requires of update_node (from the call sites: NodeReference.become on a replacement that does not depend on the node)"""
+    f = rn_pre(th, g, h, elfi) + [
+        ('model representation (state dicts under attr_dict, pairwise distinct objects)', elfi_rep(th, g, h, elfi)),
+        ('both nodes exist and differ', z3.And(g.node(node), g.node(upd), node != upd)),
+        ('model_ok: positional params of each child pairwise distinct', params_distinct(th, g)),
+        ('model_ok: acyclic, witnessed by a rank with values in [0, N) (the graph is finite)',
+         z3.And(acyclic_by(th, g, rank), th.forall_nodes(lambda x: z3.And(rank(x) >= 0, rank(x) < N)))),
+        ('the updating node is not a descendant of the node (D: a successor-closed set holding the node but not the updating node)',
+         z3.And(D(node), z3.Not(D(upd)), th.forall_nodes(lambda u, v: z3.Implies(z3.And(D(u), g.edge(u, v)), D(v)), 2))),
+        ('the updating node is not a private constant feeding other nodes', z3.Implies(th.private(upd), th.forall_nodes(lambda v: z3.Not(g.edge(upd, v)))))]
+    if elfi:
+        f.append(('model_ok: observed data only for nodes', observed_on_nodes(th, g, h)))
+    return f
+
+
+def un_facts(th, g0, h0, g1, h1, node, upd, mode, rank, N, D):
+    """Spec of update_node(node, upd).  mode 'none': plain GraphicalModel; 'base': base-class body run on an ElfiModel;
+    'elfi': ElfiModel.update_node (observed data handed over)."""
+    A = th.klit('attr_dict')
+    removed = lambda x: z3.And(g0.node(x), z3.Not(g1.node(x)))
+    rank1 = lambda x: rank(x) + z3.If(D(x), N, 0)
+    out = [('the updating node is gone, the node is there', z3.And(z3.Not(g1.node(upd)), g1.node(node))),
+           ('no node is added', th.forall_nodes(lambda x: z3.Implies(g1.node(x), g0.node(x)))),
+           ('the replaced node keeps its children with their params',
+            th.forall_nodes(lambda v: z3.And(g1.edge(node, v) == g0.edge(node, v), z3.Implies(g0.edge(node, v), g1.param(node, v) == g0.param(node, v))))),
+           ("it takes over the replacement's parents with their params",
+            th.forall_nodes(lambda u: z3.And(g1.edge(u, node) == g0.edge(u, upd), z3.Implies(g0.edge(u, upd), g1.param(u, node) == g0.param(u, upd))))),
+           ("it takes over the replacement's state (operation)", z3.And(h1.has(g1.nattr(node), A), h1.val(g1.nattr(node), A) == h0.val(g0.nattr(upd), A))),
+           ('frame: edges, params and data dicts between other remaining nodes are unchanged',
+            z3.And(th.forall_nodes(lambda a, b: z3.Implies(z3.And(a != node, b != node),
+                                                           z3.And(g1.edge(a, b) == z3.And(g0.edge(a, b), g1.node(a), g1.node(b)),
+                                                                  z3.Implies(g1.edge(a, b), g1.param(a, b) == g0.param(a, b)))), 2),
+                   th.forall_nodes(lambda x: z3.Implies(z3.And(g1.node(x), x != node), g1.nattr(x) == g0.nattr(x))))),
+           ('frame: any other removed node is a private node whose neighbours are all removed, except possibly the node itself',
+            th.forall_nodes(lambda x: z3.Implies(z3.And(removed(x), x != upd), z3.And(th.private(x), th.forall_nodes(
+                lambda y: z3.Implies(nbr(g0, x, y), z3.Or(y == node, z3.Not(g1.node(y))))))))),
+           ('model_ok kept: positional params pairwise distinct', params_distinct(th, g1)),
+           ('model_ok kept: acyclic (rank witness: old rank, raised by N on the descendants of the node)',
+            z3.And(acyclic_by(th, g1, rank1), th.forall_nodes(lambda x: z3.And(rank1(x) >= 0, rank1(x) < 2 * N)))),
+           ('model_ok kept: no private node is left isolated (when private nodes are constants: no parents, and the node is not private)',
+            z3.Implies(z3.And(private_are_sources(th, g0), no_isolated_private(th, g0), z3.Not(th.private(node))),
+                       z3.And(no_isolated_private(th, g1), private_are_sources(th, g1))))]
+    if mode == 'none':
+        out.append(('only the new data dict of the node is written',
+                    z3.And(th.forall_ref_key(lambda r, k: z3.Implies(h0.alloc(r), z3.And(h1.has(r, k) == h0.has(r, k), h1.val(r, k) == h0.val(r, k)))),
+                           z3.Not(h0.alloc(g1.nattr(node))))))
+    else:
+        o = obsref(th, g0, h0)
+        K = th.Key
+        out.append(('only the observed dict and the new data dict of the node are written',
+                    z3.And(th.forall_ref_key(lambda r, k: z3.Implies(z3.And(h0.alloc(r), r != o), z3.And(h1.has(r, k) == h0.has(r, k), h1.val(r, k) == h0.val(r, k)))),
+                           z3.Not(h0.alloc(g1.nattr(node))), th.forall_refs(lambda r: z3.Implies(h0.alloc(r), h1.alloc(r))))))
+        out.append(('observed: only node-name keys are touched', th.forall_keys(lambda k: z3.Implies(z3.Not(K.is_knode(k)), z3.And(
+            h1.has(o, k) == h0.has(o, k), h1.val(o, k) == h0.val(o, k))))))
+        keep = lambda x: z3.And(h1.has(o, th.knode(x)) == z3.And(h0.has(o, th.knode(x)), g1.node(x)),
+                                z3.Implies(h1.has(o, th.knode(x)), h1.val(o, th.knode(x)) == h0.val(o, th.knode(x))))
+        if mode == 'base':
+            out.append(('observed data of removed nodes (and of the replaced node) is gone, the rest is kept',
+                        z3.And(z3.Not(h1.has(o, th.knode(node))), th.forall_nodes(lambda x: z3.Implies(x != node, keep(x))))))
+        else:
+            out.append(("the node takes over the replacement's observed data; observed data of removed nodes is gone, the rest is kept",
+                        z3.And(h1.has(o, th.knode(node)) == h0.has(o, th.knode(upd)),
+                               z3.Implies(h0.has(o, th.knode(upd)), h1.val(o, th.knode(node)) == h0.val(o, th.knode(upd))),
+                               th.forall_nodes(lambda x: z3.Implies(x != node, keep(x))))))
+        out.append(('model_ok kept: observed data only for nodes', observed_on_nodes(th, g1, h1)))
+    return out
+
+
+def un_kept(th, g1, h1, elfi):
+    return [(lbl + ' (kept)', f) for lbl, f in rn_pre(th, g1, h1, elfi)] + [('model representation kept', elfi_rep(th, g1, h1, elfi))]
+
+
+def make_stub_update_node(mode):
+    def stub(m, node, upd):
+        ctx = m._ctx
+        th, vc, G, H = ctx.th, ctx.vc, m.source_net, ctx.H
+        g0, h0 = G.snap(), H.snap()
+        gh = ctx.ghost
+        for lbl, f in un_pre(th, g0, h0, node.t, upd.t, mode != 'none', gh.rank, gh.N, gh.D):
+            vc.oblige('call-pre[update_node: %s]' % lbl, f)
+        G._vc_havoc('update_node')
+        H._vc_havoc('update_node')
+        g1, h1 = G.snap(), H.snap()
+        for lbl, f in un_facts(th, g0, h0, g1, h1, node.t, upd.t, mode, gh.rank, gh.N, gh.D) + \
+                un_kept(th, g1, h1, mode != 'none'):
+            vc.assume(f)
+        return ctx.record('update_node', (node, upd), (g0, h0, g1, h1))
+    return stub
+
+
+class UpdateNode(C14Contract):
+    """GraphicalModel.update_node with self: GraphicalModel | ElfiModel, and ElfiModel.update_node"""
+    fin = 4
+
+    def __init__(self, where, cls):
+        self.where, self.cls = where, cls
+        self.target = (GMF + '::GraphicalModel.update_node') if where == 'GraphicalModel' else (EMF + '::ElfiModel.update_node')
+        self.label = 'self:' + cls
+        self.elfi = cls == 'ElfiModel'
+        self.mode = 'none' if cls == 'GraphicalModel' else ('elfi' if where == 'ElfiModel' else 'base')
+
+    def setup(self, vc):
+        s = self.base_setup(vc)
+        ctx, th = s.ctx, s.th
+        rank = z3.Function('rank', th.Node, z3.IntSort())
+        Dp = z3.Function('D', th.Node, z3.BoolSort())
+        N = z3.Int('N')
+        ctx.ghost = NS(rank=lambda x: rank(x), N=N, D=lambda x: Dp(x))
+        ctx.ranks = [ctx.ghost.rank, lambda x: rank(x) + z3.If(Dp(x), N, 0)]
+        ctx.stubs[('GraphicalModel', 'get_parents')] = stub_get_parents
+        ctx.stubs[('GraphicalModel', 'remove_node')] = make_stub_remove_node('none' if self.cls == 'GraphicalModel' else 'others')
+        ctx.stubs[('ElfiModel', 'remove_node')] = make_stub_remove_node('all')
+        if self.where == 'ElfiModel':
+            ctx.stubs[('GraphicalModel', 'update_node')] = make_stub_update_node('base')
+        s.node, s.upd = self.name(s, 'node'), self.name(s, 'updating_node')
+        return s, (s.m, s.node, s.upd), {}
+
+    def requires(self, s):
+        gh = s.ctx.ghost
+        return un_pre(s.th, s.g0, s.h0, s.node.t, s.upd.t, self.elfi, gh.rank, gh.N, gh.D)
+
+    def _inv(self, s, l):
+        th, ge, gh_, node, upd = s.th, l.entry.g, s.G.snap(), s.node.t, s.upd.t
+        vis = l.it.visited
+        moved = lambda a, b: z3.And(b == node, vis(a))
+        return [('nodes as at loop entry', th.forall_nodes(lambda x: z3.And(gh_.node(x) == ge.node(x), gh_.nattr(x) == ge.nattr(x)))),
+                ('edges = entry edges + (u -> node) for the visited parents u of the updating node',
+                 th.forall_nodes(lambda a, b: gh_.edge(a, b) == z3.Or(ge.edge(a, b), moved(a, b)), 2)),
+                ('params: the moved edges carry the params of (u -> updating node)',
+                 th.forall_nodes(lambda a, b: gh_.param(a, b) == z3.If(moved(a, b), ge.param(a, upd), ge.param(a, b)), 2))]
+
+    @property
+    def loops(self):
+        if self.where != 'GraphicalModel':
+            return {}
+        return {0: Loop(inv=self._inv, modifies=lambda s, l: [s.G], snapshot=lambda s, l: dict(g=s.G.snap()))}
+
+    def ensures(self, s, result):
+        gh = s.ctx.ghost
+        g1, h1 = s.G.snap(), s.H.snap()
+        return un_facts(s.th, s.g0, s.h0, g1, h1, s.node.t, s.upd.t, self.mode, gh.rank, gh.N, gh.D) + un_kept(s.th, g1, h1, self.elfi)
+
+
+# ---------------------------------------------------------------------- parameter_names
+def is_param(th, g, h, x):
+    """node x is marked as a parameter: its state dict has the key '_parameter'"""
+    return h.has(stateref(th, g, h, x), th.klit('_parameter'))
+
+
+class ParameterNamesGet(C14Contract):
+    target = EMF + '::ElfiModel.parameter_names#0'
+    label = 'getter'
+    comprehensions = True
+    needs_order = True
+
+    def setup(self, vc):
+        s = self.base_setup(vc)
+        return s, (s.m,), {}
+
+    def requires(self, s):
+        return rn_pre(s.th, s.g0, s.h0, True) + [elfi_rep(s.th, s.g0, s.h0)]
+
+    def ensures(self, s, result):
+        from pyvc.core import forall_range
+        th, g, h = s.th, s.g0, s.h0
+        if not isinstance(result, nxspec.SNameList):
+            raise OutOfSubset('parameter_names returned %s' % type(result).__name__)
+        at = lambda i: result.elt(i).t
+        srt = s.ctx.vc.libcalls.get('sorted')
+        pos = (lambda x: srt[-1]['pinv'](result.idx(x))) if srt else result.idx
+        return [('lists only parameter nodes', forall_range(0, result.n, lambda i: z3.And(g.node(at(i)), is_param(th, g, h, at(i))), 'i')),
+                ('lists every parameter node', th.forall_nodes(lambda x: z3.Implies(z3.And(g.node(x), is_param(th, g, h, x)),
+                                                                                    z3.And(pos(x) >= 0, pos(x) < result.n, at(pos(x)) == x)))),
+                ('in sorted order (strictly ascending names)',
+                 forall_range(0, result.n, lambda i: forall_range(0, result.n, lambda j: z3.Implies(i < j, th.lt(at(i), at(j))), 'j'), 'i')),
+                ('nothing is written', z3.BoolVal(s.H.has is h.has and s.H.val is h.val and s.G.node is g.node and s.G.edge is g.edge))]
+
+
+class _NameBag:
+    """the argument of the setter: any iterable of names; only set(...) of it is used"""
+
+    def __init__(self, mem):
+        self.mem = mem
+
+    def _vc_set(self):
+        return SNodeSet(self.mem)
+
+    def __iter__(self):
+        raise OutOfSubset('iteration over the symbolic parameter_names argument')
+
+
+class ParameterNamesSet(C14Contract):
+    target = EMF + '::ElfiModel.parameter_names#1'
+    label = 'setter'
+
+    def setup(self, vc):
+        s = self.base_setup(vc)
+        th = s.th
+        inP = z3.Function('given', th.Node, z3.BoolSort())
+        s.inP = lambda x: inP(x)
+        owner = z3.Function('state_owner', th.Ref, th.Node)     # ghost inverse of stateref on the nodes (exists: elfi_rep makes it injective)
+        s.owner = lambda r: owner(r)
+        return s, (s.m, _NameBag(s.inP)), {}
+
+    def requires(self, s):
+        th, g, h = s.th, s.g0, s.h0
+        return rn_pre(th, g, h, True) + [elfi_rep(th, g, h), th.forall_nodes(lambda x: z3.Implies(g.node(x), s.owner(stateref(th, g, h, x)) == x))]
+
+    def _is_state(self, s, r, of=None):
+        th, g, h = s.th, s.g0, s.h0
+        x = s.owner(r)
+        return z3.And(g.node(x), stateref(th, g, h, x) == r, of(x) if of else z3.BoolVal(True))
+
+    def _marks(self, s, h1, on):
+        """for the nodes x with on(x): '_parameter' is present in the state dict iff x was given (value True); every other slot is untouched"""
+        th, g, h0 = s.th, s.g0, s.h0
+        PK = th.klit('_parameter')
+        sr = lambda x: stateref(th, g, h0, x)
+        return [('exactly the given names are marked', th.forall_nodes(lambda x: z3.Implies(z3.And(g.node(x), on(x)), z3.And(
+            h1.has(sr(x), PK) == s.inP(x), z3.Implies(s.inP(x), h1.val(sr(x), PK) == th.Val.vbool(z3.BoolVal(True))))))),
+                ("only the '_parameter' slot of the state dicts of the model's own nodes is written",
+                 heap_same_except(th, h0, h1, lambda r, k: z3.And(k == PK, self._is_state(s, r, on))))]
+
+    def _inv(self, s, l):
+        th = s.th
+        vis = l.it.visited
+        pn = l.parameter_names
+        if not isinstance(pn, SNodeSet):
+            raise OutOfSubset('parameter_names is not a set at the loop head')
+        return [('the set still holds the given names that were not visited', th.forall_nodes(lambda x: pn.mem(x) == z3.And(s.inP(x), z3.Not(vis(x)))))] + \
+            self._marks(s, s.H.snap(), vis)
+
+    @property
+    def loops(self):
+        return {0: Loop(inv=self._inv, modifies=lambda s, l: [l.parameter_names, s.H])}
+
+    def raises(self, s):
+        return {'ValueError': s.th.exists_nodes(lambda x: z3.And(s.inP(x), z3.Not(s.g0.node(x))))}
+
+    def iff_raises(self, s):
+        return [('raises iff a given name is unknown', s.th.forall_nodes(lambda x: z3.Implies(s.inP(x), s.g0.node(x))))]
+
+    def ensures(self, s, result):
+        g = s.g0
+        h1 = s.H.snap()
+        return self._marks(s, h1, lambda x: z3.BoolVal(True)) + \
+            [('the graph is untouched', z3.BoolVal(s.G.node is g.node and s.G.edge is g.edge and s.G.param is g.param and s.G.nattr is g.nattr)),
+             ('model representation kept', elfi_rep(s.th, g, h1))]
+
+
+# ---------------------------------------------------------------------- copy
+def owned(th, g, h, elfi):
+    """the dict objects a model's mutators write: graph dict, observed dict, node data dicts, node state dicts -> predicate over Ref"""
+    def pred(r):
+        c = [r == g.gref, th.exists_nodes(lambda x: z3.And(g.node(x), z3.Or(r == g.nattr(x), r == stateref(th, g, h, x))))]
+        if elfi:
+            c.append(r == obsref(th, g, h))
+        return z3.Or(c)
+    return pred
+
+
+def copy_facts(th, g0, h0, gk, h1, elfi, g0_now_same):
+    """Spec of k = m.copy(): (g0, h0) the original before, gk the copy's graph, h1 the heap after."""
+    A = th.klit('attr_dict')
+    sr0 = lambda x: stateref(th, g0, h0, x)
+    srk = lambda x: stateref(th, gk, h1, x)
+    mine = owned(th, g0, h0, elfi)
+    out = [('same nodes, edges and params', z3.And(th.forall_nodes(lambda x: gk.node(x) == g0.node(x)),
+                                                  th.forall_nodes(lambda u, v: z3.And(gk.edge(u, v) == g0.edge(u, v), gk.param(u, v) == g0.param(u, v)), 2))),
+           ('every node state has the same contents (same operation, flags, ...)',
+            th.forall_nodes(lambda x: z3.Implies(g0.node(x), z3.And(h1.has(gk.nattr(x), A), th.Val.is_vref(h1.val(gk.nattr(x), A)),
+                                                                    th.forall_keys(lambda k: z3.And(h1.has(srk(x), k) == h0.has(sr0(x), k),
+                                                                                                    h1.val(srk(x), k) == h0.val(sr0(x), k))))))),
+           ('the original is untouched', z3.And(z3.BoolVal(g0_now_same), th.forall_ref_key(lambda r, k: z3.Implies(h0.alloc(r), z3.And(
+               h1.has(r, k) == h0.has(r, k), h1.val(r, k) == h0.val(r, k)))), th.forall_refs(lambda r: z3.Implies(h0.alloc(r), h1.alloc(r))))),
+           ("independence: the copy's graph dict and node data dicts are new objects",
+            z3.And(z3.Not(h0.alloc(gk.gref)), th.forall_nodes(lambda x: z3.Implies(gk.node(x), z3.Not(h0.alloc(gk.nattr(x))))))),
+           ("independence: no node state dict of the copy is a dict of the original (changing the copy's parameter flags or nodes cannot alter the original)",
+            th.forall_nodes(lambda x: z3.Implies(gk.node(x), z3.Not(mine(srk(x)))))),
+           ('the copy is a well-formed model', z3.And(graph_wf(th, gk, h1), edges_have_param(th, gk) == edges_have_param(th, g0), elfi_rep(th, gk, h1, elfi)))]
+    if elfi:
+        o0, ok = obsref(th, g0, h0), obsref(th, gk, h1)
+        out += [('same observed data', z3.And(obs_rep(th, gk, h1), th.forall_keys(lambda k: z3.And(h1.has(ok, k) == h0.has(o0, k), h1.val(ok, k) == h0.val(o0, k))))),
+                ("independence: the copy's observed dict is not a dict of the original (changing the copy's observed data cannot alter the original)",
+                 z3.Not(mine(ok)))]
+    return out
+
+
+def stub_copy_base(m):
+    """GraphicalModel.copy run on an ElfiModel (callee under contract Copy('GraphicalModel', 'ElfiModel'))"""
+    ctx = m._ctx
+    th, vc, G, H = ctx.th, ctx.vc, m.source_net, ctx.H
+    g0, h0 = G.snap(), H.snap()
+    for lbl, f in copy_pre(th, g0, h0, True):
+        vc.oblige('call-pre[copy: %s]' % lbl, f)
+    K = SDiGraph(H, 'K', 'sym')
+    H._vc_havoc('copy')
+    h1 = H.snap()
+    for lbl, f in copy_facts(th, g0, h0, K.snap(), h1, True, True):
+        vc.assume(f)
+    k = ModelProxy(ctx, m._cls, K)
+    return ctx.record('copy', (), k)
+
+
+def copy_pre(th, g, h, elfi):
+    f = rn_pre(th, g, h, elfi) + [('model representation', elfi_rep(th, g, h, elfi)), ('heap closed', _closed(th, h))]
+    if elfi:
+        f.append(('the model has a name', h.has(g.gref, th.klit('name'))))
+    else:
+        O = th.klit('observed')
+        f.append(("a graph-level 'observed' entry, if any, is a dict", z3.Implies(h.has(g.gref, O), th.Val.is_vref(h.val(g.gref, O)))))
+    return f
+
+
+def _closed(th, h):
+    return th.forall_ref_key(lambda r, k: z3.Implies(z3.And(h.alloc(r), h.has(r, k), th.Val.is_vref(h.val(r, k))), h.alloc(th.Val.ref_of(h.val(r, k)))))
+
+
+class Copy(C14Contract):
+    """GraphicalModel.copy with self: GraphicalModel | ElfiModel, and ElfiModel.copy"""
+    nodes, refs = 3, 20
+
+    def __init__(self, where, cls):
+        self.where, self.cls = where, cls
+        self.target = (GMF + '::GraphicalModel.copy') if where == 'GraphicalModel' else (EMF + '::ElfiModel.copy')
+        self.label = 'self:' + cls
+        self.elfi = cls == 'ElfiModel'
+
+    def setup(self, vc):
+        s = self.base_setup(vc)
+        if self.where == 'ElfiModel':
+            s.ctx.stubs[('GraphicalModel', 'copy')] = stub_copy_base
+        return s, (s.m,), {}
+
+    def requires(self, s):
+        return copy_pre(s.th, s.g0, s.h0, self.elfi)
+
+    # a repaired copy() walks over the copy's nodes and replaces each state dict by a shallow copy of it
+    def _n_loops(self):
+        loc = instrument.locate(self.target)
+        return len(instrument.loops_in_source_order(loc.node))
+
+    def _inv(self, s, l):
+        th, g0, h0 = s.th, s.g0, s.h0
+        lib = s.ctx.vc.libcalls.get('nx.DiGraph')
+        if not lib:
+            raise OutOfSubset('copy: loop before the graph is copied')
+        K, hc = lib[-1]['copy'], lib[-1]['heap']            # the copy's graph, the heap right after nx.DiGraph(G)
+        gk, hh = K.snap(), s.H.snap()
+        A = th.klit('attr_dict')
+        vis = l.it.visited
+        srh = lambda x: stateref(th, gk, hh, x)
+        sr0 = lambda x: stateref(th, g0, h0, x)
+        newdata = lambda r: th.exists_nodes(lambda x: z3.And(g0.node(x), r == gk.nattr(x)))
+        return [('the copy graph itself is not modified', z3.BoolVal(K.node is lib[-1]['copy_node'] if 'copy_node' in lib[-1] else True)),
+                ('visited nodes hold a NEW state dict with the contents of the original state; different nodes, different dicts',
+                 z3.And(th.forall_nodes(lambda x: z3.Implies(vis(x), z3.And(hh.has(gk.nattr(x), A), th.Val.is_vref(hh.val(gk.nattr(x), A)), z3.Not(hc.alloc(srh(x))), hh.alloc(srh(x)),
+                                                                             th.forall_keys(lambda k: z3.And(hh.has(srh(x), k) == h0.has(sr0(x), k), hh.val(srh(x), k) == h0.val(sr0(x), k)))))),
+                        th.forall_nodes(lambda x, y: z3.Implies(z3.And(vis(x), vis(y), x != y), srh(x) != srh(y)), 2))),
+                ('unvisited nodes still hold what nx.DiGraph(G) gave them', th.forall_nodes(lambda x: z3.Implies(z3.And(g0.node(x), z3.Not(vis(x))), z3.And(
+                    hh.has(gk.nattr(x), A) == hc.has(gk.nattr(x), A), hh.val(gk.nattr(x), A) == hc.val(gk.nattr(x), A))))),
+                ("of the dicts that existed after nx.DiGraph(G), only the 'attr_dict' slots of the copy's node data dicts are written",
+                 th.forall_ref_key(lambda r, k: z3.Implies(z3.And(hc.alloc(r), z3.Not(z3.And(k == A, newdata(r)))), z3.And(hh.has(r, k) == hc.has(r, k), hh.val(r, k) == hc.val(r, k))))),
+                ('allocation only grows', th.forall_refs(lambda r: z3.Implies(hc.alloc(r), hh.alloc(r))))]
+
+    @property
+    def loops(self):
+        if self.where == 'GraphicalModel' and self._n_loops() >= 1:
+            return {0: Loop(inv=self._inv, modifies=lambda s, l: [s.H])}
+        return {}
+
+    def ensures(self, s, result):
+        if not isinstance(result, ModelProxy):
+            raise OutOfSubset('copy returned %s' % type(result).__name__)
+        g0 = s.g0
+        same = s.G.node is g0.node and s.G.edge is g0.edge and s.G.param is g0.param and s.G.nattr is g0.nattr and s.G.gref is g0.gref
+        return copy_facts(s.th, g0, s.h0, result.source_net.snap(), s.H.snap(), self.elfi, same) + \
+            [('the copy has the class of the original', z3.BoolVal(result._cls == self.cls))]
+
+
+CONTRACTS = [AddNode(), GetParents(), AddEdge('default'), AddEdge('given'), AddEdge('badtype'),
+             RemoveNode('GraphicalModel', 'GraphicalModel'), RemoveNode('GraphicalModel', 'ElfiModel'), RemoveNode('ElfiModel', 'ElfiModel'),
+             UpdateNode('GraphicalModel', 'GraphicalModel'), UpdateNode('GraphicalModel', 'ElfiModel'), UpdateNode('ElfiModel', 'ElfiModel'),
+             ParameterNamesGet(), ParameterNamesSet(),
+             Copy('GraphicalModel', 'GraphicalModel'), Copy('GraphicalModel', 'ElfiModel'), Copy('ElfiModel', 'ElfiModel')]
+
+
 def _ALL():
-    return [AddNode(), GetParents(), AddEdge('default'), AddEdge('given'), AddEdge('badtype')]
+    return CONTRACTS
+
+
+TRUSTED_BASE = ['pyvc engine: proxies, path forking, loop cutting, instrumenter rewrites D1-D2, T1-T6',
+                'pyvc.nxspec: model of networkx.DiGraph (add_node/add_edge/add_edges_from/remove_node/predecessors/edges/in_edges/degree/nodes/graph, '
+                'DiGraph(G) = shallow copy), of python dict (heap of dict objects with identity), set and list (sorted = ordered permutation); '
+                'the facts about the installed networkx 3.6.1 are sanity-tested every run',
+                'python str comparison is a strict total order; name[0] == "_" is an uninterpreted predicate of the name',
+                'virtual dispatch / super() resolution: method table (class bodies, bases, property decorators) read from the tree at run time']
+ASSUMPTIONS = ['A-LOG: logging calls have no effect',
+               'graphs are finite (the acyclicity witness is a rank with values in [0, N))',
+               'dict keys: node-name keys and literal-string keys never meet in one dict (observed is keyed by names, state / data / graph dicts by literals)',
+               'update_node / become: the replacement is not a descendant of the replaced node and is not a private constant that feeds other nodes '
+               '(otherwise the result is cyclic resp. the call raises KeyError half-way); derived from the call sites of become()',
+               "every edge carries a 'param' (GraphicalModel.add_edge is the only writer of edges in elfi and always passes one)",
+               'termination of the recursive remove_node is not proved (partial correctness; every call removes a node of a finite graph)']
+NOT_PROVED = ['A copy, and a model saved and loaded again, generates the same seeded outputs as the original  [proved: the copy has an equal view '
+              '(nodes, edges, params, state contents, observed contents); generate() equality and the pickle round trip are bounded only]',
+              'After any SEQUENCE of edits ... [proved per operation as preservation of model_ok; sequences are exercised by the bounded stand-in only]',
+              'add_edge after a removal can reuse a positional index that is still taken (param = number of positional parents): outside the statement '
+              '(adding nodes builds fresh children, for which the clause param = 0, 1, ... is proved)']
+
+
+def sanity():
+    return nxspec.sanity() + _sanity_tree()
+
+
+def _sanity_tree():
+    """the class table the dispatch resolution relies on"""
+    try:
+        ok = mro('ElfiModel') == ['ElfiModel', 'GraphicalModel'] and resolve('ElfiModel', 'get_parents') == 'GraphicalModel'
+    except Exception:
+        ok = False
+    return [('class table: ElfiModel(GraphicalModel), get_parents inherited', ok)]
